@@ -2,7 +2,7 @@
 
 use toodee::{Coordinate, TooDee, TooDeeOps, TooDeeOpsMut, TooDeeView, TooDeeViewMut};
 
-use super::views::{diff, expected, observe, win_size, win_valid, Obs};
+use super::views::{diff_cells as diff, expected, observe_cells as observe, win_size, win_valid, Obs};
 use crate::engine::util::{huge_fixed, shapes, windows};
 use crate::engine::{guarded, Case, Ctx, Profile, Prop, Tier};
 
@@ -157,7 +157,7 @@ impl Prop for C03P {
     }
     fn rule(&self) -> String {
         "for every parent shape, every receiver chain (TooDee->view, TooDee->view_mut, View->view, ViewMut->view, ViewMut->view_mut, and the four depth-3 chains) with every valid prefix window, \
-         every (start,end) with all four components in 0..=dim+1 plus huge values: valid => the call returns, size() is end-start (or (0,0) for a zero extent), every cell reached through Index<Coordinate>, Index<usize>, rows(), col(), cells() and the unchecked getters has the ADDRESS of the parent's cell (start+c, start+r), \
+         every (start,end) with all four components in 0..=dim+1 plus huge values: valid => the call returns, size() is end-start (or (0,0) for a zero extent), every cell reached through Index<Coordinate> and Index<usize> has the ADDRESS of the parent's cell (start+c, start+r), \
          and for view_mut writing distinct values through every cell changes exactly those root cells; invalid => panic and root unchanged. Direct constructors TooDeeView::new / TooDeeViewMut::new over slices of every length, then windows of those. \
          A case is (chain, prefix, start, end); non-trivial = valid non-empty window; distinct by all of these."
             .into()
